@@ -194,7 +194,24 @@ def take_in_hand(c, g, with_lags):
     used = tuple(c.st.ghost.get('lists_used', ()))
     fresh = not any(l is u for l in lists[-need:] for u in used)      # a list of its own: nothing of another group in it
     c.st.ghost = dict(c.st.ghost)
-    c.st.ghost['hand'] = {'group': g, 'values': lists[-need], 'lags': lists[-1] if with_lags else None}
+    # with lags two lists are in hand; which holds the defaults and which the lags is decided by what the code puts
+    # into them (the order in which they are made does not matter)
+    values, lags = (lists[-need], None)
+    if with_lags:
+        # what the FIRST pass does names the roles: the list it puts a default into is "the values", the other "the lags"
+        values = None
+        for tr in Loop.first_pass(c._eng, c.st):
+            for e in tr:
+                if e[0] == 'ValueList.append' and cn_of(e[2]) is not None and e[2].extra['what'] == 'default' \
+                        and any(e[1] is l for l in lists[-2:]):
+                    values = e[1]
+                    break
+            if values is not None:
+                break
+        if values is None:
+            raise KeyError('no list of the two receives a default in the first pass')
+        lags = [l for l in lists[-2:] if l is not values][0]
+    c.st.ghost['hand'] = {'group': g, 'values': values, 'lags': lags, 'pair': tuple(lists[-2:]) if with_lags else None}
     c.st.ghost['lists_used'] = used + tuple(lists[-need:])
     return fresh
 
@@ -274,8 +291,10 @@ def collect_pass(ordinal, with_lags):
         j = L.i - 1
         hand = c.st.ghost.get('hand')
         vals = [e for e in ev if e[0] == 'ValueList.append' and cn_of(e[2]) is not None and e[2].extra['what'] == 'default']
-        if len(vals) != 1 or hand is None or vals[0][1] is not hand['values']:
-            return z3.BoolVal(False)                                       # into the list in hand
+        if len(vals) != 1 or hand is None:
+            return z3.BoolVal(False)
+        if vals[0][1] is not hand['values']:
+            return z3.BoolVal(False)                                       # into the list in hand (with lags: "the values")
         g, pos = vals[0][2].extra['cn']
         if g != hand['group']:
             return z3.BoolVal(False)
@@ -284,7 +303,7 @@ def collect_pass(ordinal, with_lags):
         if not with_lags:
             return z3.And(z3.BoolVal(not rest), *cl)
         if len(rest) != 1 or rest[0][1] is not hand['lags']:
-            return z3.BoolVal(False)                                       # one entry into the OTHER list in hand: the lags
+            return z3.BoolVal(False)                                       # ... and one entry into the OTHER one: "the lags"
         le = rest[0]
         wide = WIDTH(g, j) > 1
         if le[0] == 'ValueList.append':
@@ -396,11 +415,11 @@ def post(c):
             lagged = mine[1] == 'LagControl' and mine[2] == 'kr' and len(mine[3]) == 2 and mine[3][1].k == 'ref'
             plain = mine[1] == 'Control' and mine[2] == 'kr' and len(mine[3]) == 1
             conds.append(z3.If(ANY_LAG, z3.BoolVal(bool(lagged)), z3.BoolVal(bool(plain))))
-            if lagged:
-                # the lags handed over are the list the lags were collected into (not the values)
-                conds.append(z3.BoolVal(mine[3][1] is mine[6]['lags']))
             tests = [x for x in t if x[0] == 'nonzero-test-over']
-            conds.append(z3.BoolVal(len(tests) == 1 and tests[0][1] is mine[6]['lags']))    # "some lag non-zero" asked of the lags
+            # "some lag non-zero" is asked of the lags, and a lagged unit gets the lags (not the values)
+            conds.append(z3.BoolVal(len(tests) == 1 and tests[0][1] is mine[6]['lags']))
+            if lagged:
+                conds.append(z3.BoolVal(mine[3][1] is mine[6]['lags']))
     cl.append(z3.BoolVal(k == len(creates)))                              # and no other unit
     names = c.post.self.v('_control_names')
     cl.append(z3.BoolVal(names.k == 'obj' and names.oid == 'names-without-the-prepended-ones'))
